@@ -9,6 +9,49 @@ pub fn inputs(seed: u64, extra: usize) -> Vec<(String, Vec<u8>)> {
     let corpus = load_corpus();
     let mut v: Vec<(String, Vec<u8>)> = corpus.files.iter().map(|f| (f.path.to_string_lossy().to_string(), f.bytes.clone())).collect();
     let mut rng = Rng::new(seed);
+    // texts alternating characters of two Unicode blocks whose names share a word (the domain on which
+    // the successive-range rule, the script layers and the range accessors do set / map work)
+    if let Ok(txt) = std::fs::read_to_string("/verif/_build/tables.json") {
+        if let Ok(t) = serde_json::from_str::<serde_json::Value>(&txt) {
+            let ranges: Vec<(String, u32, u32)> = t["UNICODE_RANGES"].as_array().map(|a| a.iter().map(|r| (r[0].as_str().unwrap_or("").to_string(), r[1].as_u64().unwrap_or(0) as u32, r[2].as_u64().unwrap_or(0) as u32)).collect()).unwrap_or_default();
+            let mut pairs: Vec<(usize, usize, usize)> = vec![];
+            for a in 0..ranges.len() {
+                for b in a + 1..ranges.len() {
+                    let wa: Vec<&str> = ranges[a].0.split_whitespace().collect();
+                    let shared = ranges[b].0.split_whitespace().filter(|w| wa.contains(w)).count();
+                    if shared >= 1 {
+                        pairs.push((a, b, shared));
+                    }
+                }
+            }
+            // all pairs sharing >= 2 words, and a seeded sample of the others
+            let mut chosen: Vec<(usize, usize)> = pairs.iter().filter(|p| p.2 >= 2).map(|p| (p.0, p.1)).collect();
+            let singles: Vec<(usize, usize)> = pairs.iter().filter(|p| p.2 == 1).map(|p| (p.0, p.1)).collect();
+            for _ in 0..(extra / 3).min(singles.len()) {
+                chosen.push(*rng.pick(&singles));
+            }
+            for (k, (a, b)) in chosen.iter().enumerate() {
+                let pick = |r: &mut Rng, i: usize| -> char {
+                    for _ in 0..20 {
+                        let (lo, hi) = (ranges[i].1.max(0x21), ranges[i].2);
+                        if hi < lo { break; }
+                        if let Some(c) = char::from_u32(lo + r.below((hi - lo + 1) as usize) as u32) {
+                            return c;
+                        }
+                    }
+                    'x'
+                };
+                let mut t = String::from("msg ");
+                for j in 0..rng.range(30, 90) {
+                    t.push(pick(&mut rng, if j % 2 == 0 { *a } else { *b }));
+                    if j % 9 == 8 {
+                        t.push_str(" ok ");
+                    }
+                }
+                v.push((format!("blocks-{}-{}-{}", k, ranges[*a].0.replace(' ', "_"), ranges[*b].0.replace(' ', "_")), t.into_bytes()));
+            }
+        }
+    }
     for i in 0..extra {
         // multi-script texts: two or three corpus texts glued, in utf-8
         let k = rng.range(2, 3);
